@@ -84,3 +84,27 @@ def check_rate_sync(ctx, rule: str, only_functions=None) -> int:
         else:
             ctx.ok(rule, key, f.where, 'values stored after the sync read the synced objects directly')
     return n
+
+
+def check_sync_guards(ctx, rule: str) -> int:
+    """S3: a sync function copies a value the user gave into a companion parameter the user did not give.  "Did the user give it" is
+    `.Provided`; `.Valid` is declared True for every parameter and only turns False on a rejected value, so a guard on `.Valid`
+    never lets the copy happen (the companion stays at its default)."""
+    repo = ctx.repo
+    n = 0
+    for f in repo.all_functions():
+        if not (f.name.startswith('sync_') and f.cls is not None and f.cls.name.endswith('Economics')):
+            continue
+        for node in ast.walk(f.node):
+            if not isinstance(node, ast.If):
+                continue
+            flags = [a for a in ast.walk(node.test) if isinstance(a, ast.Attribute) and a.attr in ('Provided', 'Valid')]
+            if not flags:
+                continue
+            n += 1
+            bad = [a for a in flags if a.attr == 'Valid']
+            ctx.check(not bad, rule, f'{f.qualname}/guard:{norm(node.test)[:50]}/asks-Provided', f'{f.module.rel}:{node.lineno}',
+                      f'`{norm(node.test)[:110]}` decides with `.Valid` whether the user supplied {norm(bad[0].value) if bad else ""}: Valid is True unless '
+                      f'a value was rejected, so the companion parameter is never synchronised and keeps its default (scaling all cost inputs '
+                      f'no longer scales the result)', fact='guards test .Provided')
+    return n
